@@ -379,6 +379,9 @@ def attach(model, capture_setup=False):
 
 
 def detach(rec):
+    if getattr(rec, '_detached', False):
+        return
+    rec._detached = True
     for obj, name, orig in rec._restore:
         setattr(obj, name, orig)
     m = rec.m
@@ -757,7 +760,7 @@ def scenario(name, rng):
     raise KeyError(name)
 
 
-def refine_scenarios(ctx, res, prop, plan, observer=None, oracles=()):
+def refine_scenarios(ctx, res, prop, plan, observer=None, oracles=(), driver=True):
     prop = DRIVER
     """plan: list of (scenario name, step cap).  Runs each real model with the recorder attached (explicit Euler), replays every
     accepted step through the composed Lean model `KWNFull.eulerStep` (driver of `prop`) and records a disagreement for every
@@ -768,15 +771,110 @@ def refine_scenarios(ctx, res, prop, plan, observer=None, oracles=()):
     for name, cap in plan:
         with warnings.catch_warnings():
             warnings.simplefilter('ignore')
-            ok, out = vlib.guarded(res, 'kwn-step-refinement:' + name, dict(scenario=name), _one, ctx, res, prop, name, cap, observer, oracles)
+            ok, out = vlib.guarded(res, 'kwn-step-refinement:' + name, dict(scenario=name), _one, ctx, res, prop, name, cap, observer, oracles, driver)
         if ok and out is not None:
             done.append((name, out))
     return done
 
 
-def _one(ctx, res, prop, name, cap, observer, oracles=()):
+def _pbm_config(m):
+    return [dict(origMin=float(b.originalMin), origMax=float(b.originalMax), origBins=int(b.originalBins), minBins=int(b.minBins),
+                 maxBins=int(b.maxBins), adaptive=bool(b._adaptiveBinSize), recording=bool(getattr(b, '_record', False))) for b in m.PBM]
+
+
+def _reset_part(ctx, res, prop, name, m, rec, cfg, pbm0, cap2, driver=True):
+    """`@reset`: (1) reset() through `KWNFull.resetState` (entry state -> exit state); (2) direct oracles: the configuration of every
+    population balance model survives reset(), the grids are the configured initial grids, one empty row is left; (3) the run after
+    the reset is refined like any other (setup + steps) and (4) equals, row by row, the run of a FRESHLY built model of the same
+    configuration (`reset_like_fresh` on the implementation).  The recorder `rec` is detached by the caller."""
     import kwnruns
-    m, simt = scenario(name, ctx.rng)
+    E = cfg['nElem']
+    pre = rec.state()
+    m.reset()
+    post = rec.state()
+    res.count('composed-step:%s:reset' % name)
+    desc = dict(scenario=name, seed=ctx.seed, steps_before_reset=int(pre['n']))
+    # (2) direct oracles on the implementation
+    now = _pbm_config(m)
+    for p, (a, b) in enumerate(zip(pbm0, now)):
+        for k in a:
+            if a[k] != b[k]:
+                res.violate('composed:reset-changes-model-configuration:' + k, 'reset() changed a configured parameter of a population balance model (reset leaves the model parameters)',
+                            dict(desc, phase=p), b[k], a[k])
+        g = post['ph'][p]
+        want = np.linspace(a['origMin'], a['origMax'], a['origBins'] + 1)
+        if g['bins'] != a['origBins'] or len(g['bounds']) != len(want) or not np.allclose(g['bounds'], want, rtol=1e-12, atol=0) or np.any(np.asarray(g['psd']) != 0):
+            res.violate('composed:reset-grid-not-the-configured-initial-grid', 'after reset() the size classes are not the configured initial grid with an empty distribution',
+                        dict(desc, phase=p), dict(bins=g['bins'], first=float(g['bounds'][0]), last=float(g['bounds'][-1])), dict(bins=a['origBins'], first=a['origMin'], last=a['origMax']))
+    if post['n'] != 0:
+        res.violate('composed:reset-leaves-rows', 'after reset() pData holds more than the single empty row', desc, post['n'], 0)
+    # (1) the model of reset()
+    ans = vlib.run_driver(prop, [' '.join(['kwn.reset', enc_cfg(cfg), enc_state(pre, E)])])[0] if driver else None
+    mo = dec_answer(ans) if driver else None
+    if not driver:
+        d = []
+    elif 'err' in mo:
+        d = [('driver', ans[:200], '')]
+    else:
+        st = dict(pre=pre, post=post, dtProp=0.0, xNew=[[] for _ in post['ph']])
+        d = [x for x in compare(st, mo, E) if not (x[0].startswith('xNew') or x[0] in ('dt', 'dtProposed', 'rows appended'))]
+        if mo['histLen'] != 1:
+            d.append(('rows after reset (model)', post['n'] + 1, mo['histLen']))
+    if d:
+        res.disagree('reset() (KWNFull.resetState) vs implementation, scenario %s' % name, desc, [(w, a) for w, a, b in d[:6]], [(w, b) for w, a, b in d[:6]])
+    # (3) the run after the reset, refined
+    detach(rec)
+    rec2 = attach(m, capture_setup=True)
+    try:
+        m._verif_obs = False
+        m.couplingModels = [c for c in m.couplingModels if type(c).__name__ != 'Obs']
+        solver = 'rk4' if 'rk4' in name.split('@')[1:] else 'euler'
+        kwnruns.run(m, rec.simt, solver=solver, max_steps=cap2)
+        n2, bad2, _ = refine(prop, rec2, cfg) if driver else (len(rec2.steps), [], None)
+        d2 = [] if not driver else refine_setup(prop, rec2, cfg) if rec2.setup is not None else [('setup() not captured after reset', '', '')]
+        res.count('composed-step:%s:steps-after-reset' % name, n2)
+        if d2:
+            res.disagree('setup() after reset() (KWNFull.setupState . resetState) vs implementation, scenario %s' % name, desc, [(w, a) for w, a, b in d2[:6]], [(w, b) for w, a, b in d2[:6]])
+        for i, dd in bad2[:2]:
+            res.disagree('composed KWN step after reset() vs implementation, scenario %s, accepted step %d' % (name, i), dict(desc, step=i), [(w, a) for w, a, b in dd], [(w, b) for w, a, b in dd])
+    finally:
+        detach(rec2)
+    # (4) reset_like_fresh on the implementation: a freshly built model of the same configuration, same number of steps
+    f, _ = scenario(name, _scenario_rng(ctx, name))
+    if 'record' in name.split('@')[1:]:
+        f.setPSDrecording(True)
+    kwnruns.run(f, rec.simt, solver=solver, max_steps=cap2)
+    na, nb = int(m.pData.n), int(f.pData.n)
+    if na != nb:
+        res.violate('composed:run-after-reset-differs-from-fresh-model:rows', 'the run after reset() recorded another number of rows than a freshly built model of the same configuration', desc, na, nb)
+    else:
+        for fld in ('time', 'temperature', 'composition', 'Ravg', 'volFrac', 'precipitateDensity', 'Rcrit', 'nucRate', 'drivingForce'):
+            u = np.asarray(getattr(m.pData, fld)[:na + 1], dtype=float); v = np.asarray(getattr(f.pData, fld)[:nb + 1], dtype=float)
+            sc = float(np.max(np.abs(v))) if v.size else 0.0
+            if u.shape != v.shape or not np.allclose(u, v, rtol=1e-6, atol=1e-9 * sc):
+                k = int(np.argmax(np.abs(u - v).reshape(len(u), -1).max(axis=1))) if u.shape == v.shape else -1
+                res.violate('composed:run-after-reset-differs-from-fresh-model:' + fld, 'the history recorded after reset() differs from that of a freshly built model of the same configuration run for the same steps',
+                            dict(desc, row=k, steps=na), u[k].tolist() if k >= 0 else list(u.shape), v[k].tolist() if k >= 0 else list(v.shape))
+                break
+        for p in range(len(m.PBM)):
+            if m.PBM[p].bins != f.PBM[p].bins or not np.allclose(m.PBM[p].PSD, f.PBM[p].PSD, rtol=1e-6, atol=1e-9 * max(float(np.max(f.PBM[p].PSD)), 1.0)):
+                res.violate('composed:run-after-reset-differs-from-fresh-model:distribution', 'the size distribution after the run that followed reset() differs from that of a freshly built model',
+                            dict(desc, phase=p), int(m.PBM[p].bins), int(f.PBM[p].bins))
+    res.case(('composed-reset', name), True)
+
+
+def _scenario_rng(ctx, name):
+    """every scenario draws from its own generator, seeded by (run seed, scenario name): a scenario is reproduced by its name and the
+    seed alone, whatever else the check ran before it (replay, search)"""
+    import random, zlib
+    return random.Random(zlib.crc32(('%d/%s' % (ctx.seed, name)).encode()))
+
+
+def _one(ctx, res, prop, name, cap, observer, oracles=(), driver=True):
+    import kwnruns
+    rng = _scenario_rng(ctx, name)
+    m, simt = scenario(name, rng)
+    pbm0 = _pbm_config(m)
     opts = name.split('@')[1:]
     if 'record' in opts:
         m.setPSDrecording(True)
@@ -786,7 +884,7 @@ def _one(ctx, res, prop, name, cap, observer, oracles=()):
         if '2solves' in opts:
             # two solve calls; the first one ends by itself (short simulated time), the second runs into the step cap
             # the first call ends by itself at its own end time; for Al-Zr it is long enough for precipitates to exist at the boundary
-            first = ctx.rng.uniform(60.0, 200.0) if name.startswith('alzr') and 'loaded' not in name else ctx.rng.uniform(0.05, 0.3)
+            first = rng.uniform(60.0, 200.0) if name.startswith('alzr') and 'loaded' not in name else rng.uniform(0.05, 0.3)
             n1 = kwnruns.run(m, first, solver=solver, observer=observer)
             m._verif_obs = False      # a fresh step counter for the second call
             m.couplingModels = [c for c in m.couplingModels if type(c).__name__ != 'Obs']
@@ -796,6 +894,14 @@ def _one(ctx, res, prop, name, cap, observer, oracles=()):
         cfg = config(m)
         if oracles:
             step_oracles(res, rec, cfg, name, oracles)
+        if not driver:
+            # oracle-only pass (search for a failing input after a proof / the correspondence broke, replay): no model involved
+            if 'reset' in opts:
+                rec.simt = simt
+                _reset_part(ctx, res, prop, name, m, rec, cfg, pbm0, max(10, cap // 3), driver=False)
+            res.traces += 1
+            res.count('composed-step:%s:steps(oracle-only)' % name, len(rec.steps))
+            return m
         if not ensure_driver():
             res.extra['composed_step_driver'] = 'drv_C03 does not build'
             return m
@@ -806,6 +912,9 @@ def _one(ctx, res, prop, name, cap, observer, oracles=()):
             if d:
                 res.disagree('setup() (KWNFull.setupState) vs implementation, scenario %s' % name, dict(scenario=name, seed=ctx.seed),
                              [(w, a) for w, a, b in d[:6]], [(w, b) for w, a, b in d[:6]])
+        if 'reset' in opts:
+            rec.simt = simt
+            _reset_part(ctx, res, prop, name, m, rec, cfg, pbm0, max(10, cap // 3))
     finally:
         detach(rec)
     res.traces += 1
@@ -1007,3 +1116,20 @@ def refine_setup(prop, rec, cfg):
     st = dict(pre=su['pre'], post=su['post'], dtProp=0.0, xNew=[[] for _ in su['post']['ph']])
     d = [x for x in compare(st, mo, cfg['nElem']) if not (x[0].startswith('xNew') or x[0] in ('dt', 'dtProposed', 'rows appended'))]
     return d
+
+
+def replay_scenario(ctx, entry, prop, plan, oracles, Result):
+    """replay of a violation found by a direct oracle on a captured run (its case names the scenario): the scenario is re-run with
+    the seed and tier of the entry (set by vcheck) and the same oracles, without the model; True = the key does not fail again"""
+    c = entry['violation']['case']
+    if isinstance(c.get('case'), dict) and 'scenario' not in c:
+        c = c['case']
+    name = c.get('scenario')
+    caps = dict(plan)
+    if name not in caps:
+        print('  scenario %r is not in the plan of this tier' % name); return None
+    res = Result()
+    refine_scenarios(ctx, res, prop, [(name, caps[name])], oracles=oracles, driver=False)
+    for v in res.violations[:5]:
+        print('  ', v['key'], v['what'], v.get('observed'), v.get('required'))
+    return entry['violation']['key'] not in {v['key'] for v in res.violations}
